@@ -9,6 +9,7 @@ import (
 	"fmt"
 	"math/rand"
 	"os"
+	"regexp"
 	"strconv"
 	"strings"
 	"sync"
@@ -17,6 +18,8 @@ import (
 	"github.com/fluffle/goirc/client"
 	"verifharness/sess"
 )
+
+var tagRe = regexp.MustCompile(`s=(\w+);i=(\d+);`)
 
 type wireLine struct {
 	S    string `json:"s"`
@@ -50,25 +53,57 @@ func session(name string, nUser, nHandler, m int, pacing string, rng *rand.Rand)
 	base, _ := srv.Lines()
 	skip := len(base)
 	rec := &sessionRec{Name: name}
-	mk := func(sn string, i int) string {
-		pad := strings.Repeat("x", rng.Intn(40))
-		return fmt.Sprintf("PRIVMSG #c :%s %d %s", sn, i, pad)
+	// every sender issues its lines through a rotating set of command methods; mk returns the
+	// line as it must appear on the wire and the call that issues it
+	type issue struct {
+		wire string
+		call func(c *client.Conn)
+	}
+	mk := func(sn string, i int) issue {
+		tag := fmt.Sprintf("s=%s;i=%d;%s", sn, i, strings.Repeat("x", rng.Intn(40)))
+		switch i % 9 {
+		case 0:
+			return issue{"PRIVMSG #c :" + tag, func(c *client.Conn) { c.Raw("PRIVMSG #c :" + tag) }}
+		case 1:
+			return issue{"PRIVMSG #c :" + tag, func(c *client.Conn) { c.Privmsg("#c", tag) }}
+		case 2:
+			return issue{"NOTICE #c :" + tag, func(c *client.Conn) { c.Notice("#c", tag) }}
+		case 3:
+			return issue{"PONG :" + tag, func(c *client.Conn) { c.Pong(tag) }}
+		case 4:
+			return issue{"PING :" + tag, func(c *client.Conn) { c.Ping(tag) }}
+		case 5:
+			return issue{"QUIT :" + tag, func(c *client.Conn) { c.Quit(tag) }}
+		case 6:
+			return issue{"AWAY :" + tag, func(c *client.Conn) { c.Away(tag) }}
+		case 7:
+			return issue{"TOPIC #c :" + tag, func(c *client.Conn) { c.Topic("#c", tag) }}
+		default:
+			return issue{"MODE #c " + tag, func(c *client.Conn) { c.Mode("#c", tag) }}
+		}
+	}
+	wires := func(l []issue) []string {
+		r := make([]string, len(l))
+		for i, x := range l {
+			r[i] = x.wire
+		}
+		return r
 	}
 	var issued sync.Map
 	var wg sync.WaitGroup
 	// handler-driven senders: the server sends a trigger line, the foreground handler sends m lines
 	for h := 0; h < nHandler; h++ {
 		sn := fmt.Sprintf("h%d", h)
-		lines := make([]string, m)
+		lines := make([]issue, m)
 		for i := range lines {
 			lines[i] = mk(sn, i+1)
 		}
-		issued.Store(sn, lines)
+		issued.Store(sn, wires(lines))
 		wg.Add(1)
 		s.C.HandleFunc("TRIG"+strconv.Itoa(h), func(c *client.Conn, l *client.Line) {
 			defer wg.Done()
 			for _, x := range lines {
-				c.Raw(x)
+				x.call(c)
 			}
 		})
 	}
@@ -105,16 +140,16 @@ func session(name string, nUser, nHandler, m int, pacing string, rng *rand.Rand)
 	}()
 	for u := 0; u < nUser; u++ {
 		sn := fmt.Sprintf("u%d", u)
-		lines := make([]string, m)
+		lines := make([]issue, m)
 		for i := range lines {
 			lines[i] = mk(sn, i+1)
 		}
-		issued.Store(sn, lines)
+		issued.Store(sn, wires(lines))
 		wg.Add(1)
 		go func() {
 			defer wg.Done()
 			for _, x := range lines {
-				s.C.Raw(x)
+				x.call(s.C)
 			}
 		}()
 	}
@@ -138,14 +173,13 @@ func session(name string, nUser, nHandler, m int, pacing string, rng *rand.Rand)
 	}
 	all, _ := srv.Lines()
 	for _, l := range all[skip:] {
-		if strings.HasPrefix(l, "PONG ") {
+		if strings.HasPrefix(l, "PONG :sync-") {
 			continue
 		}
-		f := strings.Fields(strings.TrimPrefix(l, "PRIVMSG #c :"))
 		wl := wireLine{Text: l}
-		if len(f) >= 2 {
-			wl.S = f[0]
-			wl.I, _ = strconv.Atoi(f[1])
+		if m := tagRe.FindStringSubmatch(l); m != nil {
+			wl.S = m[1]
+			wl.I, _ = strconv.Atoi(m[2])
 		}
 		rec.Wire = append(rec.Wire, wl)
 	}
